@@ -210,14 +210,16 @@ Theorem resolution_imported : forall st callee x whole args has_args p T imp,
     equal_fold (s_clz st) T = false ->
     pure_of T = T -> T <> "" ->
     find (fun i => String.eqb i T || has_suffix ("." ++ T) i) (s_imports st) = Some imp ->
-    T <> "super" -> callee <> "super" -> is_chain_call T = false ->
+    T <> "super" -> callee <> "super" -> is_chain_call T = false -> x <> "this" ->
     exists c,
       calls_at (body_event st (ECall callee x false "" whole args has_args p)) (cur_key st)
       = calls_at st (cur_key st) ++ [c] /\
       c_node c = T /\ c_pkg c = remove_target imp /\ c_fn c = callee.
 Proof.
-  intros st callee x whole args has_args p T imp HT Hfold Hpure Hne Hfind Hs1 Hs2 Hchain.
-  cbn [body_event]. unfold enter_method_call. rewrite HT.
+  intros st callee x whole args has_args p T imp HT Hfold Hpure Hne Hfind Hs1 Hs2 Hchain Hthis.
+  cbn [body_event]. unfold enter_method_call.
+  assert (Et : String.eqb x "this" = false) by now apply String.eqb_neq.
+  rewrite Et, HT.
   assert (Hw : warp_target_full_type st T = (imp, "chain")).
   { unfold warp_target_full_type. rewrite Hfold. fold (pure_of T). rewrite Hpure.
     apply String.eqb_neq in Hne. rewrite Hne. now rewrite Hfind. }
@@ -238,7 +240,7 @@ Qed.
 Theorem resolution_implicit : forall st callee whole args has_args p,
     warp_target_full_type st (parse_target_type st whole) = ("", "") ->
     parse_target_type st whole = whole ->
-    whole <> "super" -> callee <> "super" ->
+    whole <> "super" -> callee <> "super" -> whole <> "this" ->
     (forall imp, In imp (s_imports st) -> has_suffix ("." ++ callee) imp = false) ->
     is_chain_call (s_clz st) = false ->
     exists c,
@@ -246,8 +248,10 @@ Theorem resolution_implicit : forall st callee whole args has_args p,
       = calls_at st (cur_key st) ++ [c] /\
       c_node c = s_clz st /\ c_pkg c = s_pkg st /\ c_fn c = callee.
 Proof.
-  intros st callee whole args has_args p Hw Hp Hs1 Hs2 Hstatic Hchain.
-  cbn [body_event]. unfold enter_method_call. rewrite Hp in *. rewrite Hw.
+  intros st callee whole args has_args p Hw Hp Hs1 Hs2 Hthis Hstatic Hchain.
+  cbn [body_event]. unfold enter_method_call.
+  assert (Et : String.eqb whole "this" = false) by now apply String.eqb_neq.
+  rewrite Et. rewrite Hp in *. rewrite Hw.
   assert (E1 : String.eqb whole "super" = false) by now apply String.eqb_neq.
   assert (E2 : String.eqb callee "super" = false) by now apply String.eqb_neq.
   rewrite E1, E2. cbn [orb negb]. rewrite String.eqb_refl. cbn [negb].
